@@ -36,6 +36,9 @@ def obligations():
                  "the returned Python source is `[atom.index for atom in topology.atoms if <p>]` with <p> equivalent to the parsed AST (hence increasing index order)", 300))
     for i, e in enumerate(MALFORMED):
         o.append(Obl(f"C12.malformed.{i}", "py", H, "check_malformed", ["mdtraj.core.selection.parse_selection"], f"string {e!r}", "a malformed expression is rejected with an error", 60, params={"only": i}, twin=True))
+    o.append(Obl("C12.n_bonds_after_edit", "xh", "harness.c12_py", "n_bonds_after_edit", ["mdtraj.core.topology.Atom.n_bonds", "Topology.select", "Topology.insert_atom", "Topology.delete_atom_by_index", "Topology.add_bond"],
+                 "7-atom topology; selection evaluated before the edit or not; insert at index 0..7 / delete+insert / add_bond / none; threshold 0..3; ==, >=, <",
+                 "the bond-count keyword denotes the current bond graph (by atom identity) after any edit", 400))
     return o
 
 
